@@ -121,15 +121,17 @@ def run(ctx):
                        'not in the dialect: `if c do`, short while, `?` with non-string arguments, newer compound operators']
     lay = progs.LAYOUTS
     if ctx.quick:
-        run_gen(ctx, progs.generate(ctx, 'all', 7), ('tight', 'lines', 'comments'), 'all<=7', ctx.seed)
-        run_gen(ctx, progs.generate(ctx, 'skeleton', 9), ('spaced', 'semis'), 'skeleton<=9', ctx.seed)
-        run_gen(ctx, progs.generate(ctx, 'shortif', 19), lay, 'shortif<=19', ctx.seed)
+        run_gen(ctx, progs.generate(ctx, 'all', 6), ('tight', 'lines', 'comments'), 'all<=6', ctx.seed)
+        run_gen(ctx, progs.generate(ctx, 'skeleton', 8), ('spaced', 'semis'), 'skeleton<=8', ctx.seed)
+        run_gen(ctx, progs.generate(ctx, 'blocks', 10), ('tight', 'comments'), 'blocks<=10', ctx.seed)
+        run_gen(ctx, progs.generate(ctx, 'shortif', 15), lay, 'shortif<=15', ctx.seed)
         run_gen(ctx, progs.generate(ctx, 'all', 40, max_depth=4, simulate=300), lay, 'simulated<=40', ctx.seed)
     else:
-        run_gen(ctx, progs.generate(ctx, 'all', 8), lay, 'all<=8', ctx.seed)
-        run_gen(ctx, progs.generate(ctx, 'skeleton', 11), ('tight', 'lines', 'comments'), 'skeleton<=11', ctx.seed)
-        run_gen(ctx, progs.generate(ctx, 'expr', 10), ('tight', 'comments'), 'expr<=10', ctx.seed)
-        run_gen(ctx, progs.generate(ctx, 'shortif', 23), lay, 'shortif<=23', ctx.seed)
+        run_gen(ctx, progs.generate(ctx, 'all', 7), lay, 'all<=7', ctx.seed)
+        run_gen(ctx, progs.generate(ctx, 'skeleton', 9), ('tight', 'lines', 'comments'), 'skeleton<=9', ctx.seed)
+        run_gen(ctx, progs.generate(ctx, 'blocks', 12), ('tight', 'lines', 'semis'), 'blocks<=12', ctx.seed)
+        run_gen(ctx, progs.generate(ctx, 'expr', 9), ('tight', 'comments'), 'expr<=9', ctx.seed)
+        run_gen(ctx, progs.generate(ctx, 'shortif', 19), lay, 'shortif<=19', ctx.seed)
         run_gen(ctx, progs.generate(ctx, 'all', 60, max_depth=5, simulate=4000), lay, 'simulated<=60', ctx.seed)
     ctx.exhaustive = True
     srcs = [s for s in fixture_sources() if s[0] != 'lexer_valid.lua']   # (contains `if (c) stmt end`, not a valid program)
@@ -138,7 +140,7 @@ def run(ctx):
         for k, m in enumerate(layout_mutations(src, rnd, 3 if ctx.quick else 10)):
             extra.append(('%s~%d' % (name, k), m))
     syn_traces(ctx, srcs + extra)
-    b = progs.generate(ctx, 'all', 7 if ctx.quick else 8)[-1]
+    b = progs.generate(ctx, 'all', 6 if ctx.quick else 7)[-1]
     ctx.sample({'gen': 'GenProg', 'src': progs.render(b, 'spaced').decode('latin1'), 'deriv': b['deriv']})
 
 
